@@ -22,7 +22,9 @@ CERTS = [('absent', None, None), ('cn0', (), 'client'), ('cn1', ('alice',), 'cli
          # a second common name that is blank, or the same name twice: two common names all the same
          ('cn2-blank-first', (' ', 'alice'), 'client'), ('cn2-blank-last', ('alice', '  '), 'client'),
          ('cn2-tab', ('\t', 'alice'), 'both'), ('cn2-same', ('alice', 'alice'), 'client'),
-         ('cn3-blanks', (' ', 'alice', '   '), 'client')]
+         ('cn3-blanks', (' ', 'alice', '   '), 'client'),
+         # other extended key usages: without client authentication among them the certificate does not qualify
+         ('cn1-other-eku', ('alice',), 'other'), ('cn1-any-eku', ('alice',), 'any'), ('cn1-other+client', ('alice',), 'other+client')]
 BEHAVIOURS = ['vouch', 'vouch-nogroups', 'user404', 'groups404', 'user403', 'user500', 'groups403', 'groups500',
               'unreachable', 'nonjson', 'nourl']
 FLIP = {'calls': 0}      # state of the 'flip' host: vouches (groups g1,g2) for the first request, then forgets the user
@@ -129,7 +131,7 @@ def predict(cert_names, eku, tls_auth, blocks):
         return False, None
     cert_names = tuple(n.lstrip('+') for n in cert_names)     # '+name' = inside a multi-valued RDN: a common name all the same
     if tls_auth:
-        if eku is None or eku == 'server':
+        if eku not in ('client', 'both', 'other+client'):
             return False, None
     slugs_enabled = [(n, c) for n, c in blocks if n.startswith('auth:slugs') and c.get('enabled') == 'True']
     others_enabled = [(n, c) for n, c in blocks if not n.startswith('auth:slugs') and c.get('enabled') == 'True']
@@ -297,7 +299,7 @@ def culprit(clabel, tls_auth, eku, names, blocks):
     """Mechanism class of a cell: which condition should have stopped the request."""
     if names is None:
         return 'certificate-absent'
-    if tls_auth and eku in (None, 'server'):
+    if tls_auth and eku not in ('client', 'both', 'other+client'):
         return 'eku-%s' % eku
     slugs = [c for n, c in blocks if n.startswith('auth:slugs') and c.get('enabled') == 'True']
     if slugs:
